@@ -12,15 +12,15 @@ use std::collections::BTreeMap;
 use std::time::Duration;
 
 pub fn meta(m: &mut PropMeta) {
-    m.rule = "a pool of 31 file texts spread over nested and sibling modules (cross-file type references, alias chains, inheritance, deprecated uses, doc links that resolve only when another file is present, a redefinition across files, a containment cycle across files and two types outside it that lead into it, a dictionary key struct, and a definition named like a nested module of another file); EVERY subset of 2..4 files (quick) / 2..5 files (thorough) x ALL permutations of the subset, compiled in-process; every compilation is executed twice (fresh hash seeds) and must give identical diagnostics and ASTs; across the permutations of one subset: accepted-or-rejected is constant and, when accepted, every file's observed AST and the multiset of warnings (code, message, file, span) are constant. Process level: 3-file programs x every source/reference assignment x all 6 orders through the real binary with a capturing generator: exit status constant, warning multiset constant, and the decoded request content of every file constant (only the split and order change); every scenario repeated under hash seeds VERIF_HASH_SEED = 0..3 (quick) / 0..31 (thorough) via an LD_PRELOAD getrandom shim: stderr, stdout and the captured request must be byte-identical. non-trivial = the subset's files refer to each other; distinct = distinct (subset, order).";
+    m.rule = "a pool of 32 file texts spread over nested and sibling modules (cross-file type references, alias chains, inheritance, deprecated uses, doc links that resolve only when another file is present, a redefinition across files, a containment cycle across files and two types outside it that lead into it, a dictionary key struct, and a definition named like a nested module of another file); EVERY subset of 2..4 files (quick) / 2..5 files (thorough) x ALL permutations of the subset, compiled in-process; every compilation is executed twice (fresh hash seeds) and must give identical diagnostics and ASTs; across the permutations of one subset: accepted-or-rejected is constant and, when accepted, every file's observed AST and the multiset of warnings (code, message, file, span) are constant. Process level: 3-file programs x every source/reference assignment x all 6 orders through the real binary with a capturing generator: exit status constant, warning multiset constant, and the decoded request content of every file constant (only the split and order change); every scenario repeated under hash seeds VERIF_HASH_SEED = 0..3 (quick) / 0..31 (thorough) via an LD_PRELOAD getrandom shim: stderr, stdout and the captured request must be byte-identical. non-trivial = the subset's files refer to each other; distinct = distinct (subset, order).";
     m.explanation = "exhaustive subsets x permutations x source/reference assignments; differential oracle (no expected value needed); controlled hash seeds";
     m.thorough_cap_s = 1800.0;
-    m.quick_bound = "all subsets of 2..4 of 31 files x all permutations; 4 hash seeds";
-    m.thorough_bound = "all subsets of 2..5 of 31 files x all permutations; 32 hash seeds";
+    m.quick_bound = "all subsets of 2..4 of 32 files x all permutations; 4 hash seeds";
+    m.thorough_bound = "all subsets of 2..5 of 32 files x all permutations; 32 hash seeds";
     m.assumptions.push("the hash-seed space cannot be enumerated: seeds are a controlled, replayable sample; the permutation / assignment part is exhaustive");
 }
 
-const POOL: [&str; 31] = [
+const POOL: [&str; 32] = [
     "module A\nstruct S0 { x: int32 }\nenum E0 : uint8 { X }\n",
     "module A\nstruct S1 { s: S0, e: E0? }\n",
     "module A::B\nstruct T { s: S0, u: A::S1 }\n",
@@ -59,6 +59,8 @@ const POOL: [&str; 31] = [
     // types OUTSIDE the containment cycle R1 <-> R2 (#11, #12) that lead into it: a struct and an enum
     "module A\nstruct RU { u: R1, v: Sequence<R2?> }\n",
     "module A\nenum RE { V(x: R2), W }\n",
+    // a file that declares a module (with an attribute) and nothing else: it has content of its own all the same
+    "[[cs::only(\"marker\")]]\n[cs::namespace(\"Marker\")] module A::Marker\n",
 ];
 
 /// A second, small pool for the permutation family: every kind of MEMBER (parameter, return member, enumerator field,
@@ -181,7 +183,7 @@ impl Family for Permutations {
         if self.pool.len() == POOL_MEMBERS.len() {
             return format!("permutations-member-collisions/{} subsets (2..4 files) of an 11-file pool in which a parameter, a return member, an enumerator field, a field and an operation are named like definitions in nested modules of other files, each with a file that uses the colliding name x all permutations, each compiled twice", self.subsets.len());
         }
-        format!("permutations/{} subsets of the 31-file pool x all permutations, each compiled twice", self.subsets.len())
+        format!("permutations/{} subsets of the 32-file pool x all permutations, each compiled twice", self.subsets.len())
     }
     fn len(&self) -> u64 {
         self.subsets.len() as u64
@@ -268,7 +270,7 @@ fn shim_path() -> String {
 /// redefinition across files, a containment cycle across files and two types outside it that lead into it, an unresolved reference), so that "accepted or
 /// rejected" has both answers; two four-file programs.
 fn programs(tier: &str) -> Vec<Vec<usize>> {
-    let mut v: Vec<Vec<usize>> = vec![vec![0, 1, 2], vec![5, 6, 4], vec![0, 2, 8], vec![0, 13, 1], vec![0, 7, 1], vec![11, 12, 0], vec![29, 11, 12], vec![9, 2, 10], vec![1, 2, 3], vec![0, 1, 2, 15], vec![4, 5, 6, 0]];
+    let mut v: Vec<Vec<usize>> = vec![vec![0, 31, 1], vec![0, 1, 2], vec![5, 6, 4], vec![0, 2, 8], vec![0, 13, 1], vec![0, 7, 1], vec![11, 12, 0], vec![29, 11, 12], vec![9, 2, 10], vec![1, 2, 3], vec![0, 1, 2, 15], vec![4, 5, 6, 0]];
     if tier != "quick" {
         for s in subsets(POOL.len(), 3) {
             if !v.contains(&s) {
@@ -296,6 +298,33 @@ fn capture_args() -> Vec<(String, String)> {
 
 fn run_binary(files: &[(usize, bool)], seed: Option<u32>) -> BinObs {
     run_binary_with(files, seed, &[])
+}
+
+/// The first file as a source, all the others in the directory `refs`, given as `-R refs`.
+fn run_binary_dir(files: &[(usize, bool)], seed: Option<u32>) -> BinObs {
+    let mut sc = Scenario::default();
+    let mut argv = vec![];
+    for (k, (i, _)) in files.iter().enumerate() {
+        if k == 0 {
+            sc.tree.push((format!("f{i}.slice"), crate::proc::Node::File(POOL[*i].as_bytes().to_vec())));
+            argv.push(format!("f{i}.slice"));
+        } else {
+            sc.tree.push((format!("refs/f{i}.slice"), crate::proc::Node::File(POOL[*i].as_bytes().to_vec())));
+        }
+    }
+    argv.extend(["-R".to_string(), "refs".to_string(), "-D".to_string(), "GIVEN".to_string()]);
+    sc.gens.push(Gen { name: "capture".into(), install: Install::Script(Script(vec![Step::ReadAll, Step::Stdout(encode_reply(&[], &[])), Step::Exit(0)])) });
+    argv.push("-G".into());
+    argv.push(crate::proc::gen_spec("{relgen0}", &capture_args()));
+    sc.argv = argv;
+    if let Some(s) = seed {
+        sc.env.push(("LD_PRELOAD".into(), shim_path()));
+        sc.env.push(("VERIF_HASH_SEED".into(), s.to_string()));
+    }
+    let o = run(&sc, Duration::from_secs(20));
+    let stdin = o.gens.get(0).and_then(|g| g.stdin.clone());
+    let request = stdin.as_ref().and_then(|s| split_request(s, &capture_args()).map(|r| r.to_vec()));
+    BinObs { exit: o.exit_code, crashed: o.timed_out || o.signal.is_some() || o.panic_location().is_some(), stderr: o.stderr, stdout: o.stdout, request, stdin }
 }
 
 fn run_binary_with(files: &[(usize, bool)], seed: Option<u32>, extra: &[&str]) -> BinObs {
@@ -362,12 +391,12 @@ impl Family for Assignments {
     }
     fn describe(&self, idx: u64) -> Value {
         let (p, o, a) = &self.cases[idx as usize];
-        json!({"pool_files": self.progs[*p], "sources_mask": format!("{a:#b}"), "order": o, "seeds": if *p < 11 { self.seeds } else { self.seeds_rest }})
+        json!({"pool_files": self.progs[*p], "sources_mask": format!("{a:#b}"), "order": o, "seeds": if *p < 12 { self.seeds } else { self.seeds_rest }})
     }
     fn run(&self, idx: u64) -> CaseOut {
         let (p, order, assign) = self.cases[idx as usize].clone();
         let prog = &self.progs[p];
-        let seeds = if p < 11 { self.seeds } else { self.seeds_rest };
+        let seeds = if p < 12 { self.seeds } else { self.seeds_rest };
         let files: Vec<(usize, bool)> = order.iter().map(|k| (prog[*k], (assign >> k) & 1 == 1)).collect();
         let mut out = CaseOut::new(hash_str(&format!("c15bin{idx}")));
         out.steps = 0;
@@ -399,7 +428,7 @@ impl Family for Assignments {
         }
         // "the same inputs and OPTIONS": a second option vector (JSON diagnostics, a suppression, a symbol) for the
         // first eleven programs
-        if p < 11 {
+        if p < 12 {
             let extra = ["--diagnostic-format", "json", "-A", "Deprecated", "-D", "X", "-D", "GIVEN"];
             let b2 = run_binary_with(&files, Some(0), &extra);
             out.steps += 1;
@@ -413,6 +442,20 @@ impl Family for Assignments {
             }
             if (b2.exit == Some(0)) != (base.exit == Some(0)) {
                 out.violate("c15/binary/acceptance-depends-on-unrelated-options", format!("with {extra:?} the exit status is {:?}, without {:?}\n{}", b2.exit, base.exit, desc()));
+            }
+        }
+        // the files found below a reference DIRECTORY: whatever order the compiler takes them in, it is the same in
+        // every run (the first file stays a source, the others are put into refs/)
+        if p < 12 && files.len() >= 3 {
+            let d0 = run_binary_dir(&files, Some(0));
+            out.steps += 1;
+            for seed in 1..seeds.min(4) {
+                let o = run_binary_dir(&files, Some(seed));
+                out.steps += 1;
+                if o.stderr != d0.stderr || o.stdout != d0.stdout || o.exit != d0.exit || o.stdin != d0.stdin {
+                    out.violate("c15/binary/result-depends-on-hash-seed-with-a-reference-directory", format!("first file as a source, the others below '-R refs': seed 0: exit {:?} stderr {}\nseed {seed}: exit {:?} stderr {}; generator input identical: {}\n{}", d0.exit, show_bytes(&d0.stderr), o.exit, show_bytes(&o.stderr), o.stdin == d0.stdin, desc()));
+                    break;
+                }
             }
         }
         // same seed twice: byte-identical
